@@ -5,6 +5,7 @@ import QModel.Recipe
 import QModel.Perform
 import QModel.WF
 import QModel.Pipeline
+import QModel.Skeleton
 open Lean Num Nd Arith Cfg Graph Mat
 
 /-! JSON-lines driver: one request per line on stdin, one response per line on stdout. -/
@@ -444,7 +445,8 @@ def handle (j : Json) : Except String Json := do
       let reqs ← getReqs j
       let pt ← getPTable j
       pure (match Perform.modify pt m reqs with
-        | .ok m' => Json.mkObj [("ok", modelToJson m'), ("wf", Json.bool (WF.modelOK m')), ("wf_in", Json.bool (WF.modelOK m))]
+        | .ok m' => Json.mkObj [("ok", modelToJson m'), ("wf", Json.bool (WF.modelOK m')), ("wf_in", Json.bool (WF.modelOK m)),
+                                 ("skeleton", Json.bool (Skeleton.sameModelSkeleton m m'))]
         | .error e => errJson e)
   | "materialize" =>
       let env ← getEnv j
@@ -459,7 +461,8 @@ def handle (j : Json) : Except String Json := do
       let qs ← getQsvs j
       pure (match Pipeline.quantizePure rx env st qs with
         | .ok (m', tbl) => Json.mkObj [("ok", modelToJson m'), ("params", Json.arr (tbl.map paramToJson).toArray),
-                                        ("wf", Json.bool (WF.modelOK m'))]
+                                        ("wf", Json.bool (WF.modelOK m')),
+                                        ("skeleton", Json.bool (Skeleton.sameModelSkeleton env.model m'))]
         | .error e => errJson e)
   | _ => throw s!"unknown op {op}"
 
